@@ -616,3 +616,290 @@ Proof.
   split; [exact Hi|]. split; [exact Hl|]. split; [apply Bool.eqb_prop; exact Hc|].
   apply transport_sound. unfold binning_eqb. simpl. rewrite Hc, He. reflexivity.
 Qed.
+
+(* ---------- count_pairs over linked patch pairs: the per-bin sums of weights of a measurement ---------- *)
+Lemma upd_length {A} (l : list A) k x : length (upd l k x) = length l.
+Proof. revert k; induction l as [|a l IH]; intros [|k]; simpl; auto. Qed.
+
+Lemma nth_upd {A} (l : list A) k x p d :
+  (k < length l)%nat -> nth p (upd l k x) d = if (p =? k)%nat then x else nth p l d.
+Proof.
+  revert k p; induction l as [|a l IH]; intros k p Hk; simpl in Hk; [lia|].
+  destruct k as [|k]; destruct p as [|p]; simpl; try reflexivity.
+  apply IH. lia.
+Qed.
+
+Lemma upd_out {A} (l : list A) k x : (length l <= k)%nat -> upd l k x = l.
+Proof.
+  revert k; induction l as [|a l IH]; intros [|k] H; simpl in *; try reflexivity; try lia.
+  rewrite IH by lia. reflexivity.
+Qed.
+
+Lemma map_combine_fst {A B C} (f : A -> C) (l1 : list A) (l2 : list B) :
+  length l1 = length l2 -> map (fun tt => f (fst tt)) (combine l1 l2) = map f l1.
+Proof.
+  revert l2; induction l1 as [|a l1 IH]; intros [|b l2] H; simpl in *; try discriminate; [reflexivity|].
+  rewrite IH by lia. reflexivity.
+Qed.
+Lemma map_combine_snd {A B C} (f : B -> C) (l1 : list A) (l2 : list B) :
+  length l1 = length l2 -> map (fun tt => f (snd tt)) (combine l1 l2) = map f l2.
+Proof.
+  revert l2; induction l1 as [|a l1 IH]; intros [|b l2] H; simpl in *; try discriminate; [reflexivity|].
+  rewrite IH by lia. reflexivity.
+Qed.
+
+Lemma pair_sums_indep t1 t2 : length t1 = length t2 ->
+  pair_sums t1 t2 = (map snd t1, map snd t2).
+Proof.
+  intros H. unfold pair_sums. f_equal.
+  - exact (map_combine_fst (@snd nat Q) t1 t2 H).
+  - exact (map_combine_snd (@snd nat Q) t1 t2 H).
+Qed.
+
+Lemma nth_repeat_lt {A} (a d : A) n k : (k < n)%nat -> nth k (repeat a n) d = a.
+Proof. revert k; induction n as [|n IH]; intros [|k] H; simpl; try lia; [reflexivity|]. apply IH. lia. Qed.
+
+Lemma patch_trees_length binned hasw cr edges objs :
+  increasing edges -> (2 <= length edges)%nat ->
+  length (patch_trees binned hasw cr edges objs) = nbins edges.
+Proof.
+  intros Hi Hl. unfold patch_trees. destruct binned.
+  - apply (trees_partition hasw cr edges objs Hi Hl).
+  - apply repeat_length.
+Qed.
+
+Lemma cat_trees_length binned hasw cr edges patches : length (cat_trees binned hasw cr edges patches) = length patches.
+Proof. apply map_length. Qed.
+
+Lemma nth_cat_trees binned hasw cr edges patches p :
+  (p < length patches)%nat ->
+  nth p (cat_trees binned hasw cr edges patches) [] = patch_trees binned hasw cr edges (nth p patches []).
+Proof. intros H. unfold cat_trees. apply (nth_map_default _ patches p [] []). exact H. Qed.
+
+(* the fold: a column that was written at least once holds the value of its own patch, whatever
+   the partners were and in whatever order the results arrived *)
+Section Fold.
+  Context (ps : list tree -> list tree -> list Q * list Q) (c1 c2 : list (list tree)).
+  Context (col1 col2 : nat -> list Q).
+
+  Lemma fold_lengths pairs st :
+    length (fst (fold_left (pair_write ps c1 c2) pairs st)) = length (fst st) /\
+    length (snd (fold_left (pair_write ps c1 c2) pairs st)) = length (snd st).
+  Proof.
+    revert st; induction pairs as [|ij pairs IH]; intros st; simpl; [tauto|].
+    destruct (IH (pair_write ps c1 c2 st ij)) as [H1 H2]. rewrite H1, H2.
+    unfold pair_write; simpl. rewrite !upd_length. tauto.
+  Qed.
+
+  Lemma fold_written1 pairs : forall st,
+    (forall ij, In ij pairs -> fst (ps (nth (fst ij) c1 []) (nth (snd ij) c2 [])) = col1 (fst ij)) ->
+    forall p d, (p < length (fst st))%nat ->
+      (nth p (fst st) d = col1 p \/ exists j, In (p, j) pairs) ->
+      nth p (fst (fold_left (pair_write ps c1 c2) pairs st)) d = col1 p.
+  Proof.
+    induction pairs as [|ij pairs IH]; intros st Hps p d Hp H; simpl.
+    - destruct H as [H|[j []]]. exact H.
+    - apply IH.
+      + intros x Hx. apply Hps. right. exact Hx.
+      + unfold pair_write; simpl. rewrite upd_length. exact Hp.
+      + unfold pair_write; simpl.
+        destruct (Nat.lt_ge_cases (fst ij) (length (fst st))) as [Hk|Hk].
+        * rewrite (nth_upd _ _ _ _ _ Hk). destruct (p =? fst ij)%nat eqn:E.
+          -- left. apply Nat.eqb_eq in E. subst p. apply Hps. left. reflexivity.
+          -- destruct H as [H|[j [Hj|Hj]]].
+             ++ left. exact H.
+             ++ subst ij. simpl in E. rewrite Nat.eqb_refl in E. discriminate.
+             ++ right. exists j. exact Hj.
+        * destruct H as [H|[j [Hj|Hj]]].
+          -- left. rewrite upd_out by exact Hk. exact H.
+          -- subst ij. simpl in Hk. lia.
+          -- right. exists j. exact Hj.
+  Qed.
+
+  Lemma fold_written2 pairs : forall st,
+    (forall ij, In ij pairs -> snd (ps (nth (fst ij) c1 []) (nth (snd ij) c2 [])) = col2 (snd ij)) ->
+    forall p d, (p < length (snd st))%nat ->
+      (nth p (snd st) d = col2 p \/ exists i, In (i, p) pairs) ->
+      nth p (snd (fold_left (pair_write ps c1 c2) pairs st)) d = col2 p.
+  Proof.
+    induction pairs as [|ij pairs IH]; intros st Hps p d Hp H; simpl.
+    - destruct H as [H|[j []]]. exact H.
+    - apply IH.
+      + intros x Hx. apply Hps. right. exact Hx.
+      + unfold pair_write; simpl. rewrite upd_length. exact Hp.
+      + unfold pair_write; simpl.
+        destruct (Nat.lt_ge_cases (snd ij) (length (snd st))) as [Hk|Hk].
+        * rewrite (nth_upd _ _ _ _ _ Hk). destruct (p =? snd ij)%nat eqn:E.
+          -- left. apply Nat.eqb_eq in E. subst p. apply Hps. left. reflexivity.
+          -- destruct H as [H|[j [Hj|Hj]]].
+             ++ left. exact H.
+             ++ subst ij. simpl in E. rewrite Nat.eqb_refl in E. discriminate.
+             ++ right. exists j. exact Hj.
+        * destruct H as [H|[j [Hj|Hj]]].
+          -- left. rewrite upd_out by exact Hk. exact H.
+          -- subst ij. simpl in Hk. lia.
+          -- right. exists j. exact Hj.
+  Qed.
+End Fold.
+
+Lemma nth_cols_to_mat nb cols b p :
+  (b < nb)%nat -> (p < length cols)%nat ->
+  nth p (nth b (cols_to_mat nb cols) []) 0 = nth b (nth p cols []) 0.
+Proof.
+  intros Hb Hp. unfold cols_to_mat. rewrite nth_map_seq by exact Hb.
+  apply (nth_map_default (fun c => nth b c 0) cols p [] 0). exact Hp.
+Qed.
+
+(* the value of one side: a binned sample follows `member`, a sample without binning reports the
+   patch total in every bin *)
+Lemma patch_trees_value binned hasw cr edges objs b :
+  increasing edges -> (2 <= length edges)%nat -> (b < nbins edges)%nat ->
+  nth b (map snd (patch_trees binned hasw cr edges objs)) 0 ==
+  (if binned then spec_weight hasw cr edges objs b else wsum hasw objs).
+Proof.
+  intros Hi Hl Hb. change 0 with (snd dummy_tree) at 1. rewrite map_nth.
+  unfold patch_trees. destruct binned.
+  - apply (trees_partition hasw cr edges objs Hi Hl). exact Hb.
+  - rewrite nth_repeat_lt by exact Hb. reflexivity.
+Qed.
+
+(* count_pairs: for EVERY sequence of patch pairs (every linkage, every order in which the pair
+   results arrive) the per-bin sum of weights recorded for a patch that occurs in some pair is the
+   closed-side rule applied to the objects of that patch alone: it does not depend on the partner
+   patches, in particular not on whether a partner has objects in the bin *)
+Theorem count_pairs_member cr edges binned1 hasw1 cat1 binned2 hasw2 cat2 pairs b p :
+  increasing edges -> (2 <= length edges)%nat -> (b < nbins edges)%nat ->
+  (forall ij, In ij pairs -> (fst ij < length cat1)%nat /\ (snd ij < length cat2)%nat) ->
+  let m := count_pairs_sw cr edges binned1 hasw1 cat1 binned2 hasw2 cat2 pairs in
+  ((p < length cat1)%nat -> (exists j, In (p, j) pairs) ->
+     nth p (nth b (fst m) []) 0 ==
+     (if binned1 then spec_weight hasw1 cr edges (nth p cat1 []) b else wsum hasw1 (nth p cat1 []))) /\
+  ((p < length cat2)%nat -> (exists i, In (i, p) pairs) ->
+     nth p (nth b (snd m) []) 0 ==
+     (if binned2 then spec_weight hasw2 cr edges (nth p cat2 []) b else wsum hasw2 (nth p cat2 []))).
+Proof.
+  intros Hi Hl Hb Hrange m. subst m.
+  unfold count_pairs_sw, count_pairs_with, count_pairs_gen. cbv zeta.
+  set (c1 := cat_trees binned1 hasw1 cr edges cat1).
+  set (c2 := cat_trees binned2 hasw2 cr edges cat2).
+  set (st0 := sw_init (nbins edges) (length c1) (length c2)).
+  assert (L1 : length (fst st0) = length cat1).
+  { unfold st0, sw_init; simpl. rewrite repeat_length. apply cat_trees_length. }
+  assert (L2 : length (snd st0) = length cat2).
+  { unfold st0, sw_init; simpl. rewrite repeat_length. apply cat_trees_length. }
+  assert (Hps : forall ij, In ij pairs ->
+            pair_sums (nth (fst ij) c1 []) (nth (snd ij) c2 []) =
+            (map snd (patch_trees binned1 hasw1 cr edges (nth (fst ij) cat1 [])),
+             map snd (patch_trees binned2 hasw2 cr edges (nth (snd ij) cat2 [])))).
+  { intros ij Hij. destruct (Hrange ij Hij) as [R1 R2]. unfold c1, c2.
+    rewrite (nth_cat_trees _ _ _ _ _ _ R1), (nth_cat_trees _ _ _ _ _ _ R2).
+    apply pair_sums_indep. rewrite !patch_trees_length by assumption. reflexivity. }
+  destruct (fold_lengths pair_sums c1 c2 pairs st0) as [F1 F2].
+  split; intros Hp Hex; cbn [fst snd].
+  - rewrite nth_cols_to_mat; [|exact Hb|rewrite F1, L1; exact Hp].
+    rewrite (fold_written1 pair_sums c1 c2
+               (fun q => map snd (patch_trees binned1 hasw1 cr edges (nth q cat1 []))) pairs st0).
+    + apply patch_trees_value; assumption.
+    + intros ij Hij. rewrite (Hps ij Hij). reflexivity.
+    + rewrite L1. exact Hp.
+    + right. exact Hex.
+  - rewrite nth_cols_to_mat; [|exact Hb|rewrite F2, L2; exact Hp].
+    rewrite (fold_written2 pair_sums c1 c2
+               (fun q => map snd (patch_trees binned2 hasw2 cr edges (nth q cat2 []))) pairs st0).
+    + apply patch_trees_value; assumption.
+    + intros ij Hij. rewrite (Hps ij Hij). reflexivity.
+    + rewrite L2. exact Hp.
+    + right. exact Hex.
+Qed.
+
+(* in particular: two pair sequences that cover the same patches give the same matrices entry by entry
+   (the linkage and the schedule of the workers are invisible in sum_weights) *)
+Corollary count_pairs_schedule_free cr edges binned1 hasw1 cat1 binned2 hasw2 cat2 pairs pairs' b p :
+  increasing edges -> (2 <= length edges)%nat -> (b < nbins edges)%nat ->
+  (forall ij, In ij pairs -> (fst ij < length cat1)%nat /\ (snd ij < length cat2)%nat) ->
+  (forall ij, In ij pairs' -> (fst ij < length cat1)%nat /\ (snd ij < length cat2)%nat) ->
+  (p < length cat1)%nat -> (exists j, In (p, j) pairs) -> (exists j, In (p, j) pairs') ->
+  nth p (nth b (fst (count_pairs_sw cr edges binned1 hasw1 cat1 binned2 hasw2 cat2 pairs)) []) 0 ==
+  nth p (nth b (fst (count_pairs_sw cr edges binned1 hasw1 cat1 binned2 hasw2 cat2 pairs')) []) 0.
+Proof.
+  intros Hi Hl Hb R R' Hp E E'.
+  rewrite (proj1 (count_pairs_member cr edges binned1 hasw1 cat1 binned2 hasw2 cat2 pairs b p Hi Hl Hb R) Hp E).
+  rewrite (proj1 (count_pairs_member cr edges binned1 hasw1 cat1 binned2 hasw2 cat2 pairs' b p Hi Hl Hb R') Hp E').
+  reflexivity.
+Qed.
+
+(* the variant that skips a bin when one of the two trees is empty is NOT the rule: two patches,
+   two bins, patch 0 has an object in bin 0 only, patch 1 in bin 1 only, pairs (0,0) (1,1) (0,1)
+   (the sequence of an autocorrelation): the last result stored for patch 0 on side 1 and for
+   patch 1 on side 2 comes from the pair (0,1), in which every bin has an empty side; the object of
+   patch 0 vanishes from sum_weights1, the object of patch 1 from sum_weights2 *)
+Theorem count_pairs_skip_refuted :
+  exists edges cat pairs, increasing edges /\ (2 <= length edges)%nat /\
+    pairs_ok (length cat) (length cat) pairs = true /\
+    fst (count_pairs_sw true edges true true cat true true cat pairs) = [[1; 0]; [0; 2]] /\
+    spec_sum_weights true true edges cat = [[1; 0]; [0; 2]] /\
+    fst (count_pairs_sw_skip true edges true true cat true true cat pairs) = [[0; 0]; [0; 2]] /\
+    snd (count_pairs_sw_skip true edges true true cat true true cat pairs) = [[1; 0]; [0; 0]].
+Proof.
+  exists [1#4; 1#2; 1], [[(3#8, 1)]; [(3#4, 2)]], [(0, 0); (1, 1); (0, 1)]%nat.
+  split; [apply increasingb_spec; reflexivity|]. split; [simpl; lia|].
+  repeat split; vm_compute; reflexivity.
+Qed.
+
+(* the checker is sound: code 0 means the observed matrices are the spec *)
+Lemma qmat_eqb_true_nth (a b : list (list Q)) i j :
+  qmat_eqb a b = true -> nth j (nth i a []) 0 == nth j (nth i b []) 0.
+Proof.
+  unfold qmat_eqb. revert b i; induction a as [|ra a IH]; intros [|rb b] i H; simpl in H; try discriminate.
+  - reflexivity.
+  - apply andb_true_iff in H. destruct H as [Hr Ha]. destruct i as [|i]; simpl.
+    + clear -Hr. unfold qlist_eqb in Hr. revert rb j Hr; induction ra as [|x ra IHr]; intros [|y rb] j Hr; simpl in Hr; try discriminate.
+      * reflexivity.
+      * apply andb_true_iff in Hr. destruct Hr as [Hx Hr]. destruct j as [|j]; simpl.
+        -- apply Qeq_bool_iff. exact Hx.
+        -- apply IHr. exact Hr.
+    + apply IH. exact Ha.
+Qed.
+
+Lemma pairs_ok_spec p1 p2 pairs : pairs_ok p1 p2 pairs = true ->
+  (forall ij, In ij pairs -> (fst ij < p1)%nat /\ (snd ij < p2)%nat) /\
+  (forall p, (p < p1)%nat -> exists j, In (p, j) pairs) /\
+  (forall p, (p < p2)%nat -> exists i, In (i, p) pairs).
+Proof.
+  unfold pairs_ok. rewrite !andb_true_iff. intros [[H0 H1] H2].
+  rewrite forallb_forall in H0, H1, H2. split; [|split].
+  - intros ij Hij. specialize (H0 ij Hij). apply andb_true_iff in H0.
+    rewrite !Nat.ltb_lt in H0. exact H0.
+  - intros p Hp. assert (Hin : In p (seq 0 p1)) by (apply in_seq; lia).
+    specialize (H1 p Hin). apply existsb_exists in H1. destruct H1 as [[i j] [Hij E]].
+    simpl in E. apply Nat.eqb_eq in E. subst i. exists j. exact Hij.
+  - intros p Hp. assert (Hin : In p (seq 0 p2)) by (apply in_seq; lia).
+    specialize (H2 p Hin). apply existsb_exists in H2. destruct H2 as [[i j] [Hij E]].
+    simpl in E. apply Nat.eqb_eq in E. subst j. exists i. exact Hij.
+Qed.
+
+Lemma code9_zero a b c d e f g h i : code [a; b; c; d; e; f; g; h; i] = 0%nat ->
+  a = true /\ b = true /\ c = true /\ d = true /\ e = true.
+Proof. destruct a, b, c, d, e, f, g, h, i; vm_compute; intro H; try discriminate H; repeat split. Qed.
+
+(* the checker the harness evaluates on every observed pair-count container: code 0 means that every
+   entry of the observed matrices is the closed-side rule applied to the patch of its column *)
+Theorem count_case_sound cr edges binned1 hasw1 cat1 binned2 hasw2 cat2 pairs obs1 obs2 :
+  c10_count_case cr edges binned1 hasw1 cat1 binned2 hasw2 cat2 pairs obs1 obs2 = 0%nat ->
+  increasing edges /\ (2 <= length edges)%nat /\
+  forall b p, (b < nbins edges)%nat ->
+    ((p < length cat1)%nat -> nth p (nth b obs1 []) 0 ==
+       (if binned1 then spec_weight hasw1 cr edges (nth p cat1 []) b else wsum hasw1 (nth p cat1 []))) /\
+    ((p < length cat2)%nat -> nth p (nth b obs2 []) 0 ==
+       (if binned2 then spec_weight hasw2 cr edges (nth p cat2 []) b else wsum hasw2 (nth p cat2 []))).
+Proof.
+  unfold c10_count_case. cbv zeta. intro H. apply code9_zero in H. destruct H as [H1 [H2 [_ [_ Hh]]]].
+  rewrite !andb_true_iff in Hh. destruct Hh as [[Hi Hl] Hp].
+  apply increasingb_spec in Hi. apply Nat.leb_le in Hl.
+  destruct (pairs_ok_spec _ _ _ Hp) as [R [C1 C2]].
+  split; [exact Hi|]. split; [exact Hl|]. intros b p Hb.
+  pose proof (count_pairs_member cr edges binned1 hasw1 cat1 binned2 hasw2 cat2 pairs b p Hi Hl Hb R) as [M1 M2].
+  split; intros Hlt.
+  - rewrite (qmat_eqb_true_nth _ _ b p H1). apply M1; [exact Hlt|apply C1; exact Hlt].
+  - rewrite (qmat_eqb_true_nth _ _ b p H2). apply M2; [exact Hlt|apply C2; exact Hlt].
+Qed.
